@@ -20,6 +20,8 @@ type c07Case struct {
 	// StaleDemo orders the known finding "stale dispatch after reset" deterministically: the dispatch of the first
 	// invocation is paused before it takes the handler mutex until the timeout reset of that invocation is over.
 	StaleDemo bool `json:"staleDemo,omitempty"`
+	// ExitDelayMs: the supervisor reports the exit of a role's processes this long after their death (0-2 roles)
+	ExitDelayMs map[string]int `json:"exitDelayMs,omitempty"`
 }
 
 type c07Stage struct {
@@ -31,7 +33,7 @@ type c07Stage struct {
 const c07Tail = 3
 
 func (c *c07Case) scenario() *Scenario {
-	sc := &Scenario{Config: Config{TimeoutMs: int64(c.T), TimeoutEnvS: 9}, Actors: map[string][]Script{}, BudgetS: 60, SelectBy: "stage"}
+	sc := &Scenario{Config: Config{TimeoutMs: int64(c.T), TimeoutEnvS: 9, ExitEventDelayMs: c.ExitDelayMs}, Actors: map[string][]Script{}, BudgetS: 90, SelectBy: "stage"}
 	names := []string{"e1", "e2"}
 	for i := 0; i < c.NExt; i++ {
 		sc.Config.ExtDir = append(sc.Config.ExtDir, DirEntry{Name: names[i], Kind: "file"})
@@ -123,6 +125,19 @@ func c07Check(c c07Case) (out kit.Outcome) {
 		return out
 	}
 	bound := float64(c.T + 2000 + 100 + 1500)
+	slowSup := false
+	for _, d := range c.ExitDelayMs {
+		if d > 0 {
+			slowSup = true
+			out.Label(fmt.Sprintf("exit-notification-delay:%d", d))
+		}
+		if d > 2000 {
+			bound += 2000 // the reset may additionally wait its fixed 2 s grace for notifications the supervisor withholds
+		} else if d > 0 {
+			bound += float64(d)
+		}
+	}
+	_ = slowSup
 	timeoutText := "Task timed out after 9.00 seconds"
 	check := func(tag string) (ok bool, failed bool) {
 		iss, ret := tr.invokeIssue(tag), tr.invokeReturn(tag)
@@ -350,6 +365,11 @@ func c07Gen(t *rapid.T) c07Case {
 		}
 		c.Stages = append(c.Stages, st)
 	}
+	if rapid.IntRange(0, 5).Draw(t, "slowSupervisor") == 0 {
+		c.ExitDelayMs = map[string]int{}
+		roles := []string{"runtime", "ext:e1", "ext:e2"}[:1+c.NExt]
+		c.ExitDelayMs[rapid.SampledFrom(roles).Draw(t, "delayRole")] = rapid.SampledFrom([]int{150, 600, 2300}).Draw(t, "delayMs")
+	}
 	return c
 }
 
@@ -364,6 +384,8 @@ func c07Fixed() []c07Case {
 			Runtime: []Step{{Op: "sleep", Ms: 10}, {Op: "exit", Code: 1}},
 			Exts:    [][]Step{{{Op: "ext.register", Events: []string{"INVOKE", "SHUTDOWN"}}, {Op: "ext.next"}, {Op: "stall"}}},
 			OnTerm:  []string{"", "ignore"}}}},
+		// a slow supervisor: the exit of the runtime killed by the timeout reset is reported 2.3 s after its death
+		{NExt: 0, T: 300, ExitDelayMs: map[string]int{"runtime": 2300}, Stages: []c07Stage{{Runtime: []Step{{Op: "rt.next"}, {Op: "stall"}}}}},
 		{NExt: 0, T: 300, Stages: []c07Stage{{Runtime: []Step{{Op: "rt.next"}, {Op: "rt.response", ID: "garbage", BodyMode: "lit", Lit: "x"}, {Op: "rt.next", Async: true, Tag: "dup"}, {Op: "rt.response", ID: "cur", BodyMode: "transform"}, {Op: "exit", Code: 0}}}}},
 	}
 }
